@@ -61,6 +61,7 @@ func (w *World) genesisRoundTrip() (res Result) {
 	cfg := w.C.Cfg
 	cfg.DB = nil
 	cfg.RawGenesis = gs
+	cfg.InitialHeight = w.C.Height + 1 // a chain restarted from an export begins with the block after the exported one
 	nc := NewChain(cfg)
 	nc.Height, nc.AppHash = w.C.Height, w.C.AppHash
 	w.C = nc
